@@ -43,101 +43,95 @@ func serverFrame(payload []byte, binaryOp bool) []byte {
 	return append(out, payload...)
 }
 
+type c17HsConn struct {
+	sent  []string
+	early []byte
+	cut   int
+}
+
 func c17HandshakeCase(rt *rapid.T, rec *vt.Rec) {
 	lib := rapid.SampledFrom([]string{"gobwas", "gorilla"}).Draw(rt, "dialler")
+	// one to three connections are dialled one after the other BEFORE anything is read from the first (a process that
+	// opens its connections first and serves them afterwards): what arrived with each handshake belongs to that
+	// connection, whatever the later dials do
+	nConns := rapid.SampledFrom([]int{1, 1, 2, 3}).Draw(rt, "connections")
 	nEarly := rapid.IntRange(1, 3).Draw(rt, "messagesWithTheHandshake")
-	var sent []string
-	var early []byte
-	for i := 0; i < nEarly+1; i++ {
-		m := map[string]interface{}{"jsonrpc": "2.0", "id": i + 1, "method": "early", "params": []interface{}{genJSONValue(rt, 1), fmt.Sprintf("m%d", i)}}
-		if i == nEarly {
-			m["method"] = "sentinel"
-		}
-		b, _ := json.Marshal(m)
-		sent = append(sent, string(b))
-		if i < nEarly {
-			body := b
-			if rapid.Bool().Draw(rt, "trailingNewline") {
-				body = append(append([]byte{}, b...), '\n')
+	conns := make([]*c17HsConn, nConns)
+	for ci := range conns {
+		hc := &c17HsConn{}
+		for i := 0; i < nEarly+1; i++ {
+			m := map[string]interface{}{"jsonrpc": "2.0", "id": 100*ci + i + 1, "method": "early", "params": []interface{}{genJSONValue(rt, 1), fmt.Sprintf("conn%d-m%d", ci, i)}}
+			if i == nEarly {
+				m["method"] = "sentinel"
 			}
-			early = append(early, serverFrame(body, rapid.Bool().Draw(rt, "binaryFrame"))...)
+			b, _ := json.Marshal(m)
+			hc.sent = append(hc.sent, string(b))
+			if i < nEarly {
+				body := b
+				if rapid.Bool().Draw(rt, "trailingNewline") {
+					body = append(append([]byte{}, b...), '\n')
+				}
+				hc.early = append(hc.early, serverFrame(body, rapid.Bool().Draw(rt, "binaryFrame"))...)
+			}
 		}
-	}
-	// where the stream is cut: the response and k bytes of the frames travel together, the rest follows
-	cut := rapid.IntRange(0, len(early)).Draw(rt, "earlyBytesInTheHandshakeSegment")
-	if rapid.IntRange(0, 2).Draw(rt, "allTogether") == 0 {
-		cut = len(early)
+		// where the stream is cut: the response and k bytes of the frames travel together, the rest follows
+		hc.cut = rapid.IntRange(0, len(hc.early)).Draw(rt, "earlyBytesInTheHandshakeSegment")
+		if rapid.IntRange(0, 2).Draw(rt, "allTogether") == 0 {
+			hc.cut = len(hc.early)
+		}
+		conns[ci] = hc
 	}
 	ln, err := net.Listen("tcp", "127.0.0.1:0")
 	if err != nil {
 		rt.Fatalf("[setup failed] listen: %v", err)
 	}
 	defer ln.Close()
-	srvErr := make(chan error, 1)
+	release := make(chan struct{}) // closed once every connection is dialled: the servers then send the rest
 	go func() {
-		c, err := ln.Accept()
-		if err != nil {
-			srvErr <- err
-			return
+		for ci := 0; ci < nConns; ci++ {
+			c, err := ln.Accept()
+			if err != nil {
+				return
+			}
+			hc := conns[ci]
+			go func() {
+				defer c.Close()
+				req, err := http.ReadRequest(bufio.NewReader(c))
+				if err != nil {
+					return
+				}
+				h := sha1.Sum([]byte(req.Header.Get("Sec-WebSocket-Key") + "258EAFA5-E914-47DA-95CA-C5AB0DC85B11"))
+				resp := "HTTP/1.1 101 Switching Protocols\r\nUpgrade: websocket\r\nConnection: Upgrade\r\nSec-WebSocket-Accept: " + base64.StdEncoding.EncodeToString(h[:]) + "\r\n\r\n"
+				if _, err := c.Write(append([]byte(resp), hc.early[:hc.cut]...)); err != nil {
+					return
+				}
+				<-release
+				time.Sleep(30 * time.Millisecond)
+				if hc.cut < len(hc.early) {
+					c.Write(hc.early[hc.cut:])
+					time.Sleep(10 * time.Millisecond)
+				}
+				c.Write(serverFrame([]byte(hc.sent[nEarly]), false))
+				time.Sleep(2 * time.Second) // keep the connection open while the client reads
+			}()
 		}
-		defer c.Close()
-		req, err := http.ReadRequest(bufio.NewReader(c))
-		if err != nil {
-			srvErr <- err
-			return
-		}
-		h := sha1.Sum([]byte(req.Header.Get("Sec-WebSocket-Key") + "258EAFA5-E914-47DA-95CA-C5AB0DC85B11"))
-		resp := "HTTP/1.1 101 Switching Protocols\r\nUpgrade: websocket\r\nConnection: Upgrade\r\nSec-WebSocket-Accept: " + base64.StdEncoding.EncodeToString(h[:]) + "\r\n\r\n"
-		if _, err := c.Write(append([]byte(resp), early[:cut]...)); err != nil {
-			srvErr <- err
-			return
-		}
-		time.Sleep(30 * time.Millisecond)
-		if cut < len(early) {
-			c.Write(early[cut:])
-			time.Sleep(10 * time.Millisecond)
-		}
-		c.Write(serverFrame([]byte(sent[nEarly]), false))
-		srvErr <- nil
-		time.Sleep(2 * time.Second) // keep the connection open while the client reads
 	}()
 	ctx, cancel := context.WithTimeout(context.Background(), 20*time.Second)
 	defer cancel()
 	url := "ws://" + ln.Addr().String() + "/"
-	var codec jsonrpc2.Codec
-	if lib == "gobwas" {
-		codec, err = gobwas.WebSocketDial(ctx, url)
-	} else {
-		codec, err = gorilla.WebSocketDial(ctx, url)
-	}
-	if err != nil {
-		rt.Fatalf("%s dial: %v", lib, err)
-	}
-	defer codec.Close()
-	var got []string
-	readErr := make(chan error, 1)
-	go func() {
-		for {
-			m, err := codec.ReadMessage()
-			if err != nil {
-				readErr <- err
-				return
-			}
-			b, _ := json.Marshal(m)
-			got = append(got, string(b))
-			if m.Request != nil && m.Request.Method == "sentinel" {
-				readErr <- nil
-				return
-			}
+	codecs := make([]jsonrpc2.Codec, nConns)
+	for ci := range codecs {
+		if lib == "gobwas" {
+			codecs[ci], err = gobwas.WebSocketDial(ctx, url)
+		} else {
+			codecs[ci], err = gorilla.WebSocketDial(ctx, url)
 		}
-	}()
-	select {
-	case err = <-readErr:
-	case <-ctx.Done():
-		err = fmt.Errorf("nothing more arrives: %v", ctx.Err())
-		codec.Close()
-		<-readErr
+		if err != nil {
+			rt.Fatalf("%s dial #%d: %v", lib, ci, err)
+		}
+		defer codecs[ci].Close()
 	}
+	close(release)
 	norm := func(ss []string) []string {
 		var out []string
 		for _, s := range ss {
@@ -148,18 +142,47 @@ func c17HandshakeCase(rt *rapid.T, rec *vt.Rec) {
 		}
 		return out
 	}
-	want := norm(sent)
-	if err != nil || fmt.Sprint(got) != fmt.Sprint(want) {
-		rt.Fatalf("%s dialling side: the server sent %d message(s) right after its handshake response (%d of their %d bytes in the same segment as the response), then a last one; read: %v (err=%v); sent: %v", lib, nEarly, cut, len(early), got, err, want)
+	cutAny := false
+	for ci, codec := range codecs {
+		hc := conns[ci]
+		var got []string
+		readErr := make(chan error, 1)
+		go func() {
+			for {
+				m, err := codec.ReadMessage()
+				if err != nil {
+					readErr <- err
+					return
+				}
+				b, _ := json.Marshal(m)
+				got = append(got, string(b))
+				if m.Request != nil && m.Request.Method == "sentinel" {
+					readErr <- nil
+					return
+				}
+			}
+		}()
+		select {
+		case err = <-readErr:
+		case <-ctx.Done():
+			err = fmt.Errorf("nothing more arrives: %v", ctx.Err())
+			codec.Close()
+			<-readErr
+		}
+		want := norm(hc.sent)
+		if err != nil || fmt.Sprint(got) != fmt.Sprint(want) {
+			rt.Fatalf("%s dialling side, connection #%d of %d (all dialled before the first read): the server sent %d message(s) right after its handshake response (%d of their %d bytes in the same segment as the response), then a last one; read: %v (err=%v); sent: %v", lib, ci, nConns, nEarly, hc.cut, len(hc.early), got, err, want)
+		}
+		cutAny = cutAny || hc.cut > 0
 	}
-	rec.Case(fmt.Sprintf("handshake|%s|%d|%d/%d", lib, nEarly, cut, len(early)), cut > 0, []string{"handshake-coalesced", "handshake-coalesced:" + lib, fmt.Sprintf("handshake-coalesced:whole-frames-with-response:%v", cut == len(early))}, func() interface{} {
-		return map[string]interface{}{"kind": "frames coalesced with the handshake response", "dialler": lib, "early_messages": nEarly, "bytes_with_response": cut, "early_bytes": len(early)}
+	rec.Case(fmt.Sprintf("handshake|%s|%d|%d|%d/%d", lib, nConns, nEarly, conns[0].cut, len(conns[0].early)), cutAny, []string{"handshake-coalesced", "handshake-coalesced:" + lib, fmt.Sprintf("handshake-coalesced:connections:%d", nConns), fmt.Sprintf("handshake-coalesced:whole-frames-with-response:%v", conns[0].cut == len(conns[0].early))}, func() interface{} {
+		return map[string]interface{}{"kind": "frames coalesced with the handshake response", "dialler": lib, "connections_dialled_before_reading": nConns, "early_messages": nEarly, "bytes_with_response": conns[0].cut, "early_bytes": len(conns[0].early)}
 	})
 }
 
 func TestC17HandshakeCoalesced(t *testing.T) {
 	rec := vt.For("C17")
-	rec.Rule("handshake boundary: a raw TCP server answers the WebSocket upgrade and writes 1-3 message frames (text/binary, with/without trailing newline) so that a generated number of their bytes - from none to all - travel in the same write as the 101 response, the rest 30 ms later, then a last message; the repository's gobwas and gorilla WebSocketDial must read exactly the messages sent, in order; non-trivial = at least one frame byte shares the response's segment; distinct by (library, messages, cut)")
+	rec.Rule("handshake boundary: a raw TCP server answers the WebSocket upgrade and writes 1-3 message frames (text/binary, with/without trailing newline) so that a generated number of their bytes - from none to all - travel in the same write as the 101 response, the rest 30 ms later, then a last message; 1-3 such connections are dialled one after the other before anything is read; the repository's gobwas and gorilla WebSocketDial must read exactly the messages sent, in order; non-trivial = at least one frame byte shares the response's segment; distinct by (library, messages, cut)")
 	rec.Assume("loopback TCP delivers one write of a few hundred bytes as one segment in practice; whether the client sees it in one read is up to the kernel (cases where it does not are still valid, just less interesting)")
 	check(t, func(rt *rapid.T) { c17HandshakeCase(rt, rec) })
 }
